@@ -59,7 +59,7 @@ int main(int argc, char** argv) {
         if (type == 16) rev = false;
         std::vector<Real> par;
         if (type == 11) par = { r.U(0.2, 1.5) * (r.I(0, 1) ? 1 : -1) };
-        if (type == 12) { Real a = r.U(0.3, 1.2); par = { a, a, a }; }     // spheres here: the non-spherical fit defects are known findings of the correspondence run
+        if (type == 12) { if (r.I(0, 3) == 0) { Real a = r.U(0.3, 1.2); par = { a, a, a }; } else par = { r.U(0.3, 1.2), r.U(0.3, 1.2), r.U(0.3, 1.2) }; }
         if (type == 15) par = { r.U(-1, 1), r.I(0, 1) ? 1.0 : -1.0, r.U(-1, 1), r.I(0, 1) ? 1.0 : -1.0, r.I(0, 1) ? 1.0 : -1.0, r.I(0, 1) ? 1.0 : -1.0 };
         MultibodySystem sys; SimbodyMatterSubsystem matter(sys);
         Body::Rigid body(randomMassProps(r));
@@ -72,7 +72,6 @@ int main(int argc, char** argv) {
         State so = sysO.realizeTopology(); matterO.setUseEulerAngles(so, euler); sysO.realizeModel(so);
         int nq = s.getNQ(), nu = s.getNU(); bool quat = matter.isUsingQuaternion(s, mb.getMobilizedBodyIndex());
         for (int i = 0; i < nq; ++i) s.updQ()[i] = r.U(0.1, 1.2) * (r.I(0, 1) ? 1 : -1);
-        if (type == 4) s.updQ()[1] = std::abs(s.getQ()[1]);               // BendStretch: negative stretch is a known finding of the correspondence run
         if (quat) { Vec4 e(r.U(-1, 1), r.U(-1, 1), r.U(-1, 1), r.U(-1, 1)); if (e.norm() < 0.2) e = Vec4(1, 0, 0, 0); e = e / e.norm(); for (int i = 0; i < 4; ++i) s.updQ()[i] = e[i]; }
         for (int i = 0; i < nu; ++i) s.updU()[i] = r.U(-1, 1);
         so.updQ() = s.getQ();
@@ -97,7 +96,7 @@ int main(int argc, char** argv) {
         // fits
         { State s2 = sys.realizeTopology(); matter.setUseEulerAngles(s2, euler); sys.realizeModel(s2);
           mb.setQToFitTransform(s2, X); sys.realize(s2, Stage::Position); const Transform X2 = mb.getMobilizerTransform(s2);
-          if (type != 12) chk("fitQ", type, xdiff(X2.R().asMat33(), X2.p(), X), 1e-9, info);
+          chk("fitQ", type, xdiff(X2.R().asMat33(), X2.p(), X), 1e-9, info);
           State s3 = s; s3.updU() = 0; mb.setUToFitVelocity(s3, V); chk("fitU", type, nu ? (s3.getU() - s.getU()).norm() : 0, 1e-9, info); }
     }
     std::printf("DONE %ld fails=%d\n", evals, fails);
